@@ -209,7 +209,7 @@ type fieldSpec struct {
 }
 
 type stmtSpec struct {
-	Kind int // 0 call pkg.F, 1 call on receiver/param, 2 defer, 3 assign from call, 4 plain assign, 5 plain call, 6 var decl, 7 incdec
+	Kind int // 0 call pkg.F, 1 call on receiver/param, 2 defer, 3 assign from call, 4 plain assign, 5 plain call, 6 var decl, 7 incdec, 8 call on a local variable assigned earlier
 	Sel  int
 	Fn   int
 	Args []int
@@ -262,7 +262,7 @@ var fieldSpecGen = rapid.Custom(func(t *rapid.T) fieldSpec {
 })
 
 var stmtSpecGen = rapid.Custom(func(t *rapid.T) stmtSpec {
-	return stmtSpec{Kind: rapid.SampledFrom([]int{0, 0, 0, 1, 1, 2, 3, 4, 5, 6, 7}).Draw(t, "stmtKind"),
+	return stmtSpec{Kind: rapid.SampledFrom([]int{0, 0, 0, 1, 1, 2, 3, 4, 5, 6, 7, 3, 8, 8}).Draw(t, "stmtKind"),
 		Sel: rapid.IntRange(0, 7).Draw(t, "selector"), Fn: rapid.IntRange(0, 7).Draw(t, "function"),
 		Args: rapid.SliceOfN(rapid.IntRange(0, 7), 0, 2).Draw(t, "args")}
 })
@@ -314,7 +314,7 @@ func drawGoSpec(t *rapid.T) goSpec {
 		g.Order = rapid.SliceOfN(rapid.IntRange(0, 9), 12, 12).Draw(t, "declarationOrder")
 	}
 	g.Comments = rapid.IntRange(0, 3).Draw(t, "comments") == 3
-	g.SharedName = rapid.IntRange(0, 3).Draw(t, "sharedTypeName") == 3
+	g.SharedName = rapid.IntRange(0, 2).Draw(t, "sharedTypeName") == 2
 	return g
 }
 
@@ -434,8 +434,17 @@ func renderFunc(fs funcSpec, name, recvType string, structNames []string, feats 
 		}
 		return ""
 	}
+	var locals []string // variables assigned from a call further up in this body
 	for _, st := range fs.Stmts {
 		switch st.Kind {
+		case 8:
+			if len(locals) == 0 {
+				continue
+			}
+			c := Call{Sel: locals[st.Sel%len(locals)], Fn: goCallNames[st.Fn%len(goCallNames)]}
+			lines = append(lines, c.Sel+"."+c.Fn+"("+args(st.Args)+")")
+			gf.Calls = append(gf.Calls, c)
+			feats["local_variable_call_statement"] = true
 		case 0:
 			c := Call{Sel: goSelectors[st.Sel%len(goSelectors)], Fn: goCallNames[st.Fn%len(goCallNames)]}
 			lines = append(lines, c.Sel+"."+c.Fn+"("+args(st.Args)+")")
@@ -459,6 +468,7 @@ func renderFunc(fs funcSpec, name, recvType string, structNames []string, feats 
 			gf.Defers = append(gf.Defers, c)
 			feats["defer"] = true
 		case 3:
+			locals = append(locals, fmt.Sprintf("v%d", len(lines)))
 			lines = append(lines, fmt.Sprintf("v%d := %s.%s(%s)", len(lines), goSelectors[st.Sel%len(goSelectors)], goAssignFn[st.Fn%len(goAssignFn)], args(st.Args)))
 			feats["assignment_from_call"] = true
 		case 4:
